@@ -123,3 +123,15 @@ package lossless
 //@   ensures result != nil
 //@   resets result zero: br Width Height HasAlpha transformWidth nextTransform transformsSeen hdr recursionDepth \
 //@     scratch: pixels argbCache transformBuf transforms codeLengthsBuf huffScratch colorCacheBuf htreeGroupsBuf
+//
+// A pooled lossless encoder: the per-image decisions of an earlier encode
+// (palette, transform choices and their bit depths, cache size) are cleared,
+// the geometry and configuration are the new call's, the transform list is
+// empty; everything else is scratch whose users size and fill it per image.
+//@ func acquireEncoder
+//@   property C11
+//@   modifies *
+//@   ensures result != nil && len(result.transforms) == 0
+//@   ensures result.width == width && result.height == height && result.currentWidth == width && result.config == config
+//@   resets result zero: argbOrig usePalette paletteSize palette predictorBits crossColorBits histogramBits cacheBits useSubtractGreen usePredict useCrossColor \
+//@     scratch: config width height currentWidth argb transforms hashChain bestRefs candidateRefs traceRefs traceDistArray huffScratch brScratch sortedPalette deltaPalette histoImageBuf subImageHisto huffCodes histoScratch residualsBuf storeCC writerBuf
